@@ -39,7 +39,10 @@ def register(reg):
         fn(C + ".update_reward", props="C01 C04", **UPD)
 
     # ---- T-HOO's U-value (C05): mean + sqrt(2 ln(rounds) / T) + nu * rho^depth, untouched (infinite) while unvisited
-    fn("HOO_node.compute_u_value", props="C01 C05",
+    # U = mean + sqrt(2 ln(rounds) / T) + nu * rho^depth ; opaque outside the node method
+    reg.opaque("hoo_u", "mean:real, T:int, depth:int, nu:real, rho:real, rounds:int",
+               "mean + sqrt(2 * ln(rounds) / T) + nu * rpow(rho, depth)")
+    fn("HOO_node.compute_u_value", props="C01 C05", reveal=["hoo_u"],
        params={"nu": "real", "rho": "real", "rounds": "int"},
        requires=[("evidence", "Evidence(self)", "C04 C05"),
                  ("ranges", "rho > 0 and rounds >= 1", "C01")],
@@ -47,8 +50,7 @@ def register(reg):
        ensures=[
            ("unvisited", "implies(self.visited_times == 0, self.u_value == old(self.u_value) and self.b_value == inf "
                          "and self.mean_reward == old(self.mean_reward))", "C05"),
-           ("formula", "implies(self.visited_times != 0, self.u_value == xr(self.mean_reward + "
-                       "sqrt(2 * ln(rounds) / self.visited_times) + nu * rpow(rho, self.depth)) "
-                       "and self.b_value == old(self.b_value))", "C05"),
+           ("formula", "implies(self.visited_times != 0, self.u_value == xr(hoo_u(self.mean_reward, self.visited_times, "
+                       "self.depth, nu, rho, rounds)) and self.b_value == old(self.b_value))", "C05"),
            ("evidence", "Evidence(self)", "C04"),
        ])
